@@ -27,8 +27,12 @@ type scanner struct {
 // scanPartial counts the conversions whose operands ended in a partly filled frame.
 var scanPartial int64
 
+// scanSameParent counts the scanners whose two operands are windows of one buffer.
+var scanSameParent int64
+
 func flushScanObs(c *core.Ctx) {
 	c.Obs("conversions_on_operands_ending_in_a_partial_frame", atomic.SwapInt64(&scanPartial, 0))
+	c.Obs("same_type_scans_between_two_windows_of_one_buffer", atomic.SwapInt64(&scanSameParent, 0))
 }
 
 const chunkN = 1 << 14
@@ -72,9 +76,17 @@ func newScannerCh(cv *dyn.ConvOp, ch int) *scanner { return newScannerHow(cv, ch
 // newScannerHow additionally chooses how the two operands were obtained.
 func newScannerHow(cv *dyn.ConvOp, ch, how int) *scanner {
 	frames := (chunkN + ch - 1) / ch
+	src, dst := operand(cv.S, ch, frames, how), operand(cv.D, ch, frames, how/3)
+	if cv.S == cv.D && how%2 == 0 {
+		// a same-type conversion between two different, equally long and
+		// disjoint windows of ONE buffer (the source first)
+		parent := cv.S.Alloc(signal.Allocator{Channels: ch, Length: 2*frames + 6, Capacity: 2*frames + 6})
+		src, dst = parent.Slice(1, 1+frames), parent.Slice(frames+3, 2*frames+3)
+		atomic.AddInt64(&scanSameParent, 1)
+	}
 	return &scanner{cv: cv, ch: ch,
-		src: operand(cv.S, ch, frames, how),
-		dst: operand(cv.D, ch, frames, how/3),
+		src: src,
+		dst: dst,
 		out: make([]uint64, chunkN), rev: make([]uint64, chunkN), tmp: make([]uint64, chunkN)}
 }
 
